@@ -404,8 +404,33 @@ Section TransposedPipeline.
 End TransposedPipeline.
 
 (* ---------------------------------------------------- concrete instances *)
-(* isotropic: the blob of ex_im1, diameter 3 *)
-Lemma ex_locate_transposed :
-  map o_pos (locate_discrete ex_percentile ex_P ex_im1) = [[(6 # 1)%Q; (7 # 1)%Q]] /\
-  map o_pos (locate_discrete ex_percentile (lp_rev ex_P) (transpose ex_im1)) = [[(7 # 1)%Q; (6 # 1)%Q]].
+(* the blob of ex_im1 (14x15 canvas) and its transpose (15x14); ex_P: diameter 3 on both
+   axes; ex_P2: diameter (3, 5), separation (3, 5), margin (1, 2) *)
+Definition ex_P2 : lparams := mkLP [3#1; 5#1]%Q [1; 2] [1; 2] (3 # 5) 3 true.
+
+Lemma ex_transposed_premises :
+  transposed ex_im1 (transpose ex_im1) /\
+  length (lp_sep ex_P2) = length (shape ex_im1) /\ length (lp_margin ex_P2) = length (shape ex_im1) /\
+  length (lp_radius ex_P2) = length (shape ex_im1) /\
+  Forall (fun s => 1 <= s) (sizes_of ex_im1 (lp_sep ex_P2)).
+Proof.
+  split; [apply ex_transposed|]. repeat split.
+  assert (E : sizes_of ex_im1 (lp_sep ex_P2) = [4; 7]) by (vm_compute; reflexivity).
+  rewrite E. repeat constructor; lia.
+Qed.
+
+(* isotropic: position columns swapped, one size, everything else identical *)
+Lemma ex_locate_transposed_iso :
+  locate_discrete ex_percentile ex_P ex_im1 =
+    [mkOut [222 # 37; 259 # 37]%Q 37 (Some ([28 # 37]%Q, 9, 37))] /\
+  locate_discrete ex_percentile (lp_rev ex_P) (transpose ex_im1) =
+    [mkOut [259 # 37; 222 # 37]%Q 37 (Some ([28 # 37]%Q, 9, 37))].
+Proof. vm_compute. split; reflexivity. Qed.
+
+(* anisotropic: the two per-axis sizes differ and are swapped with the axes *)
+Lemma ex_locate_transposed_aniso :
+  locate_discrete ex_percentile ex_P2 ex_im1 =
+    [mkOut [234 # 39; 273 # 39]%Q 39 (Some ([28 # 39; 44 # 39]%Q, 9, 39))] /\
+  locate_discrete ex_percentile (lp_rev ex_P2) (transpose ex_im1) =
+    [mkOut [273 # 39; 234 # 39]%Q 39 (Some ([44 # 39; 28 # 39]%Q, 9, 39))].
 Proof. vm_compute. split; reflexivity. Qed.
